@@ -5,6 +5,7 @@ CONSTANTS
   SubmitFail <- MCSubmitFail
   Faults <- MCFaults
   StopAt <- NoStop
+  CmdBudget = 0
 INVARIANT TypeOK
 INVARIANT C01_SubmitOnlyIfSatisfied
 INVARIANT C01_OnSequenceInBounds
